@@ -24,7 +24,7 @@ def generate(seed, tier="quick"):
     oid = len(prog["ops"])
     for _ in range(rnd.randint(1, 2)):
         p, pname = sampling.gen_path(rnd)
-        op = {"id": oid, "op": "iterative", "data": 0, "lib": 0, "joker": "main", "role": "target"}
+        op = {"id": oid, "op": "iterative", "data": rnd.randrange(len(cfg["datasets"])), "lib": 0, "joker": "main", "role": "target"}
         op.update(p)
         op["kw"] = sampling.gen_iterative_kw(rnd, N, pname, logprobs=0.8)
         if op["kw"].get("init_batch_size") == 0 or op["kw"].get("init_batch_size", 0) > N:
